@@ -3,6 +3,19 @@
 Plain Python over the raw outcome list of the current epoch.  ``err`` is 1 for
 an incorrect prediction, 0 for a correct one.  Every threshold comparison goes
 through the Decider ``D`` so that numerically undecidable steps can be steered.
+
+Exact ties.  Next to the float recurrences each model carries a *rational
+shadow* (Fractions; a square root is kept only when it is rational).  A
+threshold comparison is declared ``exact`` — and an equality is then enforced
+as documented / implemented instead of being steerable — only when both sides
+of the comparison, as floats, equal their exact rational values (so every
+correct double-precision evaluation of the specification produces the same two
+numbers), or when the outcome is fixed for every correct evaluation (EDDM ratio
+against a threshold >= 1: the ratio never exceeds 1).  ``exact_enforced`` counts
+the equalities decided that way in the last step.
+
+``reset()`` is the user's reset: it starts a new epoch (running statistics,
+state and retraining_recs cleared; the stream index keeps counting).
 """
 import math
 from fractions import Fraction
@@ -20,6 +33,38 @@ def _phi_upper(t):
     return 1.0 - 0.5 * math.erfc(-t / math.sqrt(2.0))
 
 
+def _qsqrt(q):
+    """Exact square root of a Fraction, or None when it is irrational / undefined."""
+    if q is None or q < 0:
+        return None
+    a = math.isqrt(q.numerator)
+    b = math.isqrt(q.denominator)
+    if a * a == q.numerator and b * b == q.denominator:
+        return Fraction(a, b)
+    return None
+
+
+def _is(x, q):
+    """The float x is exactly the rational q."""
+    if q is None:
+        return False
+    x = float(x)
+    if math.isnan(x) or math.isinf(x):
+        return False
+    return Fraction(x) == q
+
+
+def _q(x):
+    """Fraction of a parameter (int / float), None when not finite."""
+    try:
+        x = float(x) if not isinstance(x, int) else x
+        if isinstance(x, float) and (math.isnan(x) or math.isinf(x)):
+            return None
+        return Fraction(x)
+    except (TypeError, ValueError):
+        return None
+
+
 class _Recs:
     """[first warning index of the epoch (sticky), drift index]."""
 
@@ -35,7 +80,22 @@ class _Recs:
                 self.v[0] = idx
 
 
-class DDMModel:
+class _Base:
+    exact_enforced = 0
+
+    def _cmp(self, D, op, a, b, exact):
+        if exact and float(a) == float(b):
+            self.exact_enforced += 1
+        return getattr(D, op)(a, b, exact=bool(exact))
+
+    def reset(self, D=None):
+        """The user's reset(): a new epoch begins; nothing else is remembered."""
+        self.exact_enforced = 0
+        self._epoch()
+        return self.obs()
+
+
+class DDMModel(_Base):
     def __init__(self, n_threshold=30, warning_scale=2, drift_scale=3):
         self.n_threshold = n_threshold
         self.warning_scale = warning_scale
@@ -50,35 +110,14 @@ class DDMModel:
         self.errors = 0
         self.p = 0.0
         self.s = 0.0
+        self.s_q = Fraction(0)  # rational shadow of s (None once irrational)
         self.pmin = INF
         self.smin = INF
+        self.pmin_q = None
         self.state = None
         self.recs = _Recs()
 
-    def step(self, err, D):
-        if self.state == "drift":
-            self._epoch()
-        self.total += 1
-        self.n += 1
-        self.errors += err
-        prev = self.p
-        # running error rate == errors / n
-        self.p = prev + (err - prev) / self.n
-        # the detector's own running deviation (taken as the definition, §2.5)
-        self.s = math.sqrt((self.s + (err - self.p) * (err - prev)) / self.n)
-        if self.n >= self.n_threshold:
-            degenerate = self.s == 0.0  # both sides exactly representable
-            if D.le(self.p + self.s, self.pmin + self.smin, exact=degenerate):
-                self.pmin, self.smin = self.p, self.s
-            lhs = self.p + self.s
-            if D.ge(lhs, self.pmin + self.drift_scale * self.s, exact=degenerate):
-                self.state = "drift"
-            elif D.ge(lhs, self.pmin + self.warning_scale * self.s, exact=degenerate):
-                self.state = "warning"
-            else:
-                self.state = None
-            if self.state is not None:
-                self.recs.note(self.state, self.total - 1)
+    def obs(self):
         return {
             "state": self.state,
             "recs": list(self.recs.v),
@@ -86,11 +125,58 @@ class DDMModel:
             "since": self.n,
         }
 
+    def step(self, err, D):
+        self.exact_enforced = 0
+        if self.state == "drift":
+            self._epoch()
+        self.total += 1
+        self.n += 1
+        prev_q = Fraction(self.errors, self.n - 1) if self.n > 1 else Fraction(0)
+        self.errors += err
+        p_q = Fraction(self.errors, self.n)
+        prev = self.p
+        # running error rate == errors / n
+        self.p = prev + (err - prev) / self.n
+        # the detector's own running deviation (taken as the definition, §2.5)
+        self.s = math.sqrt((self.s + (err - self.p) * (err - prev)) / self.n)
+        if self.s_q is not None:
+            self.s_q = _qsqrt((self.s_q + (err - p_q) * (err - prev_q)) / self.n)
+        if self.n >= self.n_threshold:
+            degenerate = self.s == 0.0  # both sides exactly representable
+            # (which of two equal-sum minima is kept is not fixed by the property: ties stay steerable
+            # except in the degenerate case, where both candidates are identical)
+            if D.le(self.p + self.s, self.pmin + self.smin, exact=degenerate):
+                self.pmin, self.smin = self.p, self.s
+                self.pmin_q = p_q if _is(self.p, p_q) else None
+            lhs = self.p + self.s
+            s_ok = _is(self.s, self.s_q)
+            lhs_ok = s_ok and _is(self.p, p_q) and _is(lhs, p_q + self.s_q)
+
+            def exact_for(scale, rhs):
+                if degenerate:
+                    return True
+                sq = _q(scale)
+                if not lhs_ok or sq is None or self.pmin_q is None:
+                    return False
+                return _is(self.pmin, self.pmin_q) and _is(rhs, self.pmin_q + sq * self.s_q)
+
+            rhs_d = self.pmin + self.drift_scale * self.s
+            rhs_w = self.pmin + self.warning_scale * self.s
+            if self._cmp(D, "ge", lhs, rhs_d, exact_for(self.drift_scale, rhs_d)):
+                self.state = "drift"
+            elif self._cmp(D, "ge", lhs, rhs_w, exact_for(self.warning_scale, rhs_w)):
+                self.state = "warning"
+            else:
+                self.state = None
+            if self.state is not None:
+                self.recs.note(self.state, self.total - 1)
+        return self.obs()
+
     def canon(self):
         return (self.n, self.errors, self.p, self.s, self.pmin, self.smin, self.state, tuple(self.recs.v))
 
 
-class EDDMModel:
+class EDDMModel(_Base):
     def __init__(self, n_threshold=30, warning_thresh=0.95, drift_thresh=0.9):
         self.n_threshold = n_threshold
         self.warning_thresh = warning_thresh
@@ -107,10 +193,22 @@ class EDDMModel:
         self.mean = 0.0
         self.sd = 0.0
         self.best = 0.0
+        self.mean_q = Fraction(0)
+        self.sd_q = Fraction(0)  # None once irrational
+        self.best_q = Fraction(0)  # None when the stored maximum is not exactly known
         self.state = None
         self.recs = _Recs()
 
+    def obs(self):
+        return {
+            "state": self.state,
+            "recs": list(self.recs.v),
+            "total": self.total,
+            "since": self.n,
+        }
+
     def step(self, err, D):
+        self.exact_enforced = 0
         if self.state == "drift":
             self._epoch()
         self.total += 1
@@ -121,30 +219,48 @@ class EDDMModel:
             dist = pos - self.last_err_pos
             self.last_err_pos = pos
             prev = self.mean
+            prev_q = self.mean_q
             self.mean = prev + (dist - prev) / self.n_err
+            self.mean_q = prev_q + (dist - prev_q) / self.n_err
             self.sd = math.sqrt((self.sd + (dist - self.mean) * (dist - prev)) / self.n_err)
+            if self.sd_q is not None:
+                self.sd_q = _qsqrt((self.sd_q + (dist - self.mean_q) * (dist - prev_q)) / self.n_err)
             if self.n_err >= self.n_threshold:
                 num = self.mean + 2 * self.sd
+                num_q = None
+                if self.sd_q is not None and _is(self.mean, self.mean_q) and _is(self.sd, self.sd_q):
+                    num_q = self.mean_q + 2 * self.sd_q
+                    if not _is(num, num_q):
+                        num_q = None
                 if self.best < num:
                     self.best = num
+                    self.best_q = num_q
                 stat = num / self.best if self.best != 0 else math.nan
-                if D.le(stat, self.drift_thresh):
+                rational = (
+                    num_q is not None
+                    and self.best_q is not None
+                    and self.best_q != 0
+                    and _is(stat, num_q / self.best_q)
+                )
+
+                def exact_for(thresh):
+                    # the ratio never exceeds 1 (the maximum includes the current value), so against a
+                    # threshold >= 1 the outcome is the same for every correct evaluation
+                    return rational or (not math.isnan(stat) and float(thresh) >= 1.0)
+
+                # `<=` as implemented (the docstring writes `<`; see the C05 notes in DESIGN §8)
+                if self._cmp(D, "le", stat, self.drift_thresh, exact_for(self.drift_thresh)):
                     self.state = "drift"
-                elif D.le(stat, self.warning_thresh):
+                elif self._cmp(D, "le", stat, self.warning_thresh, exact_for(self.warning_thresh)):
                     self.state = "warning"
                 else:
                     self.state = None
                 if self.state is not None:
                     self.recs.note(self.state, self.total - 1)
-        return {
-            "state": self.state,
-            "recs": list(self.recs.v),
-            "total": self.total,
-            "since": self.n,
-        }
+        return self.obs()
 
 
-class STEPDModel:
+class STEPDModel(_Base):
     def __init__(self, window_size=30, alpha_warning=0.05, alpha_drift=0.003):
         self.w = window_size
         self.alpha_warning = alpha_warning
@@ -159,7 +275,26 @@ class STEPDModel:
         self.state = None
         self.run_start = None
 
+    def obs(self):
+        n = len(self.outcomes)
+        w = self.w
+        recent = self.outcomes[-w:]
+        past = self.outcomes[:-w] if n > w else []
+        s = sum(recent)
+        r = sum(past)
+        recs = [None, None] if self.run_start is None or self.state is None else [self.run_start, self.total - 1]
+        return {
+            "state": self.state,
+            "recs": recs,
+            "total": self.total,
+            "since": n,
+            "recent_accuracy": (s / len(recent)) if recent else 0,
+            "past_accuracy": (r / len(past)) if past else 0,
+            "overall_accuracy": ((r + s) / n) if n else 0,
+        }
+
     def step(self, err, D):
+        self.exact_enforced = 0
         if self.state == "drift":
             self._epoch()
         self.total += 1
@@ -184,22 +319,16 @@ class STEPDModel:
                 t = num / den
             pval = _phi_upper(t)
             decreased = Fraction(r, len(past)) > Fraction(s, len(recent))
-            if decreased and D.lt(pval, self.alpha_drift):
+            # T is exactly 0 (in the rationals and in floats): P(T) is exactly 1/2 for every correct normal cdf
+            num_q = abs(Fraction(r, len(past)) - Fraction(s, len(recent))) - (Fraction(1, n - w) + Fraction(1, w)) / 2
+            half = num_q == 0 and num == 0.0 and den == den and den != 0 and pval == 0.5
+            if decreased and self._cmp(D, "lt", pval, self.alpha_drift, half):
                 self.state = "drift"
-            elif decreased and D.lt(pval, self.alpha_warning):
+            elif decreased and self._cmp(D, "lt", pval, self.alpha_warning, half):
                 self.state = "warning"
             else:
                 self.state = None
                 self.run_start = None
             if self.state is not None and self.run_start is None:
                 self.run_start = self.total - 1
-        recs = [None, None] if self.run_start is None or self.state is None else [self.run_start, self.total - 1]
-        return {
-            "state": self.state,
-            "recs": recs,
-            "total": self.total,
-            "since": n,
-            "recent_accuracy": acc_recent,
-            "past_accuracy": acc_past,
-            "overall_accuracy": acc_all,
-        }
+        return self.obs()
